@@ -174,3 +174,18 @@ Proof. exact klae_checked_nonvacuous. Qed.
 Example C07_given_example : sat (gasg wit_given [2%Q] wit_given_P) (encode_klae wit_given) /\
                             (objective (gasg wit_given [2%Q] wit_given_P) (encode_klae wit_given) == 2)%Q.
 Proof. exact klae_given_example. Qed.
+
+(* The E1 comparison itself is decided by an extracted VERIFIED checker on every instance: when LinEquiv.milp_equiv_b accepts the LP
+   read back from the solver and the LP of the encoder (encode_klae I, incl. the given-weights variants), the two have the same
+   satisfying assignments, the same objective function and direction -- hence the same optimal solutions.  Every theorem above about
+   `sat a (encode_klae I)` therefore holds for the LP the implementation built on that instance. *)
+From FP Require Import LinEquiv.
+Theorem C07_lp_comparison_is_verified : forall (m1 m2 : milp), milp_equiv_b m1 m2 = true ->
+  (forall a, sat a m1 <-> sat a m2) /\ (forall a, (objective a m1 == objective a m2)%Q) /\ maximize m1 = maximize m2.
+Proof. exact milp_equiv_sound. Qed.
+Print Assumptions C07_lp_comparison_is_verified.
+
+Theorem C07_equivalent_lps_have_the_same_optima : forall (m1 m2 : milp), milp_equiv_b m1 m2 = true ->
+  forall a, (sat a m1 /\ forall b, sat b m1 -> obj_le m1 a b) <-> (sat a m2 /\ forall b, sat b m2 -> obj_le m2 a b).
+Proof. exact milp_equiv_optimal. Qed.
+Print Assumptions C07_equivalent_lps_have_the_same_optima.
